@@ -84,7 +84,7 @@ fn check(rep: &mut Report, t: &TypeInfo, key: &[u8], random: bool, why: &str) {
 pub fn run(ctx: &Ctx) -> Report {
     let mut rep = Report::new("weak");
     let ts = types();
-    let nrand = ctx.budget(2000, 200_000, 10);
+    let nrand = ctx.budget(20_000, 400_000, 10);
     let light = ctx.light();
     let weak64: Vec<[u8; 8]> = if light {
         // interpreter slice: the 4 weak and 12 semi-weak keys of SP 800-67 (parity cleared),
